@@ -440,6 +440,10 @@ func (x *Exec) ghostSets(st *State, fr *Frame, site string, extra map[string]*Va
 			x.ghostMark(st, site, cl, extra)
 			continue
 		}
+		if strings.HasPrefix(cl.Text, "wgdeposit ") || strings.HasPrefix(cl.Text, "wgwithdraw ") {
+			x.ghostWgMove(st, site, cl, extra)
+			continue
+		}
 		if !strings.HasPrefix(cl.Text, "set ") || !strings.HasSuffix(cl.Text, "@"+site) {
 			continue
 		}
@@ -517,6 +521,61 @@ func (x *Exec) ghostMark(st *State, site string, cl *Clause, extra map[string]*V
 	m := st.heapGet(fam, srt)
 	row := Select(m, a.Term)
 	st.Heap[fam] = Store(m, a.Term, Store(row, b.Term, Or(Select(row, b.Term), c)))
+}
+
+// ghostWgMove: a WaitGroup token that outlives the goroutine that added it is kept in an object:
+//   ghost wgdeposit W into OBJ @SITE    the thread gives one of its tokens of W to OBJ (ghost field wgtok of OBJ's type)
+//   ghost wgwithdraw W from OBJ @SITE   the thread takes the token OBJ holds
+// Both are obligations (a token is owned / OBJ holds one) plus bookkeeping; no token is created or lost.
+func (x *Exec) ghostWgMove(st *State, site string, cl *Clause, extra map[string]*Val) {
+	deposit := strings.HasPrefix(cl.Text, "wgdeposit ")
+	body := strings.TrimPrefix(strings.TrimPrefix(cl.Text, "wgdeposit "), "wgwithdraw ")
+	i := strings.LastIndex(body, "@")
+	if i < 0 || strings.TrimSpace(body[i+1:]) != site {
+		return
+	}
+	body = strings.TrimSpace(body[:i])
+	sep := " from "
+	if deposit {
+		sep = " into "
+	}
+	parts := strings.SplitN(body, sep, 2)
+	if len(parts) != 2 {
+		unsupportedf("ghost %s: expected W%sOBJ @SITE", strings.Fields(cl.Text)[0], sep)
+	}
+	we, err := ParseExpr(strings.TrimSpace(parts[0]))
+	if err != nil {
+		panic(unsupported{err.Error()})
+	}
+	oe, err := ParseExpr(strings.TrimSpace(parts[1]))
+	if err != nil {
+		panic(unsupported{err.Error()})
+	}
+	env := x.envAt(st, st.Frames[0])
+	for n, v := range extra {
+		env.Vars[n] = v
+	}
+	w := x.refOf(x.V.syncRef(env, we))
+	obj := x.V.eval(env, oe)
+	ns := namedStruct(pointee(obj.T))
+	if ns == nil || obj.Term == nil {
+		unsupportedf("ghost wgdeposit/wgwithdraw: the holder must be a pointer to a struct")
+	}
+	key := heapKeyField(ns, "#wgtok")
+	h := st.heapGet(key, ArrSort(SInt, SBool))
+	mine := st.ghostArr("wgmine", SInt)
+	k := x.site(st, "wgmove:"+site)
+	pos := token.NoPos
+	if deposit {
+		x.oblige(st, "assert", fmt.Sprintf("wgdeposit:token-owned@%s#%d", site, k), Ge(Select(mine, w), IntLit(1)), pos, cl.Text)
+		st.setGhostArr("wgmine", Store(mine, w, Sub(Select(mine, w), IntLit(1))))
+		st.Heap[key] = Store(h, obj.Term, True)
+	} else {
+		x.oblige(st, "assert", fmt.Sprintf("wgwithdraw:token-present@%s#%d", site, k), Select(h, obj.Term), pos, cl.Text)
+		st.Assume(Ge(Select(mine, w), IntLit(0)))
+		st.setGhostArr("wgmine", Store(mine, w, Add(Select(mine, w), IntLit(1))))
+		st.Heap[key] = Store(h, obj.Term, False)
+	}
 }
 
 func (x *Exec) siteAssertsWith(st *State, fr *Frame, site string, pos token.Pos, extra map[string]*Val) {
@@ -1481,6 +1540,12 @@ func (x *Exec) havocLoopImpl(st *State, fr *Frame, l *Loop, cellsOnly bool) {
 							}
 						}
 					}
+					continue
+				}
+				if _, isGo := in.(*ssa.Go); isGo {
+					// the started goroutine runs concurrently: what it does is interference, not an effect of this loop;
+					// the loop itself only moves the spawn log (and shares what it passes on)
+					x.sharedFamilies(st, fams)
 					continue
 				}
 				if !x.staticCallEffects(st, c, fams, 0) {
